@@ -35,7 +35,7 @@ func guarded(f func()) (pan any, timedOut bool) {
 }
 
 func C10(c *core.Ctx) {
-	c.Rule = "each public entry point on each untrusted input kind, under recover and a 10 s watchdog: abi.QuoteToProto / verify.RawTdxQuote / validate.RawTdxQuote on all truncations, size-field boundary values and mutations of valid quotes; abi.QuoteToAbiBytes / abi.CheckQuoteV4 / verify.TdxQuote / validate.TdxQuote / verify.ExtractChainFromQuote on every single structural mutation of a valid message (each sub-message nil, each bytes field nil/empty/short/long, RTMR count 0..5, numeric boundaries, nil message); arbitrary collateral / CRL / header responses; arbitrary PEM / DER in the certificate chain; arbitrary DER in the SGX extension through pcs.PckCertificateExtensions (random mutations plus every single byte replaced by 0x00 / 0x13 / 0x7f / 0x80 / 0xff). The model's verdict is compared wherever the entry point is modelled. non-trivial = input reaches beyond the first size check; distinct = distinct (entry point, input)"
+	c.Rule = "each public entry point on each untrusted input kind, under recover and a 10 s watchdog: abi.QuoteToProto / verify.RawTdxQuote / validate.RawTdxQuote on all truncations, size-field boundary values and mutations of valid quotes; abi.QuoteToAbiBytes / abi.CheckQuoteV4 / verify.TdxQuote / validate.TdxQuote / verify.ExtractChainFromQuote / verify.SupportedTcbLevelsFromCollateral (on options primed with collateral by an earlier verification) on every single structural mutation of a valid message (each sub-message nil, each bytes field nil/empty/short/long, RTMR count 0..5, numeric boundaries, nil message); arbitrary collateral / CRL / header responses; arbitrary PEM / DER in the certificate chain; arbitrary DER in the SGX extension through pcs.PckCertificateExtensions (random mutations plus every single byte replaced by 0x00 / 0x13 / 0x7f / 0x80 / 0xff). The model's verdict is compared wherever the entry point is modelled. non-trivial = input reaches beyond the first size check; distinct = distinct (entry point, input)"
 	r := c.Rng
 	w, err := world.HonestWorld(r, baseTime)
 	if err != nil {
@@ -77,9 +77,19 @@ func C10(c *core.Ctx) {
 		runScenario(c, "RawTdxQuote/"+class, desc, sc, nil, nt)
 		noPanic("validate.RawTdxQuote/"+class, desc, nt, func() { _ = validate.RawTdxQuote(raw, &validate.Options{}) })
 	})
+	// options that carry collateral and PCK extensions from an earlier verification (the state
+	// verify.SupportedTcbLevelsFromCollateral works on)
+	primed, _ := scenarioFromWorld(w, true, true).options()
+	if qa, err := abi.QuoteToProto(w.Quote.Raw); err == nil {
+		_ = verify.TdxQuote(qa, primed)
+	}
 	// ---- messages ----
 	msgCases(c, func(class, desc string, q *pb.QuoteV4) {
 		nt := q != nil
+		noPanic("SupportedTcbLevelsFromCollateral/"+class, desc, nt, func() { _, _, _ = verify.SupportedTcbLevelsFromCollateral(q, primed) })
+		noPanic("SupportedTcbLevelsFromCollateral(fresh options)/"+class, desc, nt, func() {
+			_, _, _ = verify.SupportedTcbLevelsFromCollateral(q, &verify.Options{})
+		})
 		for _, col := range []bool{false, true} {
 			sc := scenarioFromWorld(w, col, false)
 			sc.UseMsg, sc.Msg = true, q
@@ -95,6 +105,8 @@ func C10(c *core.Ctx) {
 		noPanic("QuoteToAbiBytes/"+class, desc, nt, func() { _, _ = abi.QuoteToAbiBytes(q) })
 		noPanic("CheckQuoteV4/"+class, desc, nt, func() { _ = abi.CheckQuoteV4(q) })
 	})
+	noPanic("SupportedTcbLevelsFromCollateral(untyped nil)", "quote = nil interface, primed options", false, func() { _, _, _ = verify.SupportedTcbLevelsFromCollateral(nil, primed) })
+	noPanic("SupportedTcbLevelsFromCollateral(nil options)", "nil options", false, func() { _, _, _ = verify.SupportedTcbLevelsFromCollateral(&pb.QuoteV4{}, nil) })
 	noPanic("TdxQuote(untyped nil)", "quote = nil interface", false, func() { _ = verify.TdxQuote(nil, &verify.Options{}) })
 	noPanic("TdxQuote(other type)", "quote = string", false, func() { _ = verify.TdxQuote("x", &verify.Options{}) })
 	noPanic("ExtractChainFromQuote(untyped nil)", "nil", false, func() { _, _ = verify.ExtractChainFromQuote(nil) })
